@@ -80,3 +80,26 @@ Theorem C06_handover_conservation (H : bytes -> bytes) (chain : bytes) ops s :
   (exists a, del_rej txs ++ b_qrej s' = b_qrej s ++ a).
 Proof. exact (handover_conservation H chain ops s). Qed.
 Print Assumptions C06_handover_conservation.
+
+(* ---- the same for the locking module's two hand-over queues (claimed rewards, matured unlocks) ---- *)
+From Goat Require Import Model.Locking Proofs.LockingHandover.
+Theorem C06_locking_dequeue_delivers_prefix s :
+  l_q_rewards s = del_rw (snd (dequeue_txs s)) ++ l_q_rewards (fst (dequeue_txs s)) /\
+  l_q_unlocks s = del_ul (snd (dequeue_txs s)) ++ l_q_unlocks (fst (dequeue_txs s)).
+Proof. exact (LockingHandover.dequeue_delivers_prefix s). Qed.
+Print Assumptions C06_locking_dequeue_delivers_prefix.
+
+Theorem C06_locking_other_operations_only_append s o : o <> KDequeue ->
+  (exists a, l_q_rewards (fst (lk_step s o)) = l_q_rewards s ++ a) /\ (exists a, l_q_unlocks (fst (lk_step s o)) = l_q_unlocks s ++ a) /\
+  snd (snd (lk_step s o)) = [].
+Proof. exact (LockingHandover.step_appends s o). Qed.
+Print Assumptions C06_locking_other_operations_only_append.
+
+(* every history of block operations: delivered ++ still queued = initially queued ++ appended, in order: each
+   claimed reward and each matured unlock is handed over exactly once, first-in-first-out *)
+Theorem C06_locking_handover_conservation ops s :
+  let '(s', txs) := lcollect s ops in
+  (exists a, del_rw txs ++ l_q_rewards s' = l_q_rewards s ++ a) /\
+  (exists a, del_ul txs ++ l_q_unlocks s' = l_q_unlocks s ++ a).
+Proof. exact (locking_handover_conservation ops s). Qed.
+Print Assumptions C06_locking_handover_conservation.
